@@ -148,7 +148,7 @@ func judgeGet(m *model, addr string, got cred, err error, who string, info *step
 // the store that executed the history: where the model leaves a choice (legacy-key lookup) but at most one
 // entry can be meant, the live store and the reloaded one must give the same answer - an operation on one
 // entry must not change what is read for another one other than through the file.
-func reopenCheck(path string, m *model, addrs []string, live ...*credentials.FileStore) *driver.Fail {
+func reopenCheck(path string, m *model, addrs []string, live ...credentials.Store) *driver.Fail {
 	var st *credentials.FileStore
 	var err error
 	if p := guard(func() { st, err = credentials.NewFileStore(path) }); p != "" {
